@@ -26,7 +26,9 @@ CONSTANTS MaxLenP, MaxRowsP,       \* x: vectors of <= MaxLenP cells, 2-column f
           ListsP,                  \* the method lists
           LimsP,                   \* limits of the first call and of a later call with the same method list
           OtherLimsP,              \* limits of a later call with another method list
-          ExtendsP,                \* how many later labels a reindex adds
+          ExtendsP,                \* how many later labels a reindex onto a longer index adds
+          CalendarsP,              \* ... a reindex back onto the full calendar adds
+          PokeColsP,               \* the columns of a 2-column frame in which an observation is withdrawn (0 = the whole row)
           MaxCallsP, MaxDerP, Memo, Emit
 
 VARIABLES x, y,              \* what the caller wrote: the first input; the second input (NoY until it is built)
@@ -57,14 +59,14 @@ Methods == {<<"ffill", 0>>, <<"bfill", 0>>, <<"const", CONSTV>>, <<"nona", 0>>, 
 Singles == {<<m>> : m \in Methods}
 ListsQuick    == Singles \cup {<< <<"ffill", 0>>, <<"bfill", 0>> >>}
 ListsThorough == Singles \cup {<<>>, << <<"ffill", 0>>, <<"bfill", 0>> >>, << <<"nona", 0>>, <<"ffill", 0>> >>,
-                               << <<"ffill_0", 0>>, <<"bfill", 0>> >>, << <<"const", CONSTV>>, <<"fnna", 0>> >>}
+                               << <<"ffill_0", 0>>, <<"bfill", 0>> >>}
 
 NoD == [kind |-> "", k |-> 0, i |-> 0, j |-> 0]
 DOf(kd, k, i, j) == [kind |-> kd, k |-> k, i |-> i, j |-> j]
 \* the caller's derivations: j = 0 withdraws row i of every column (one column: that is the cell)
-Ders == {DOf("extend", k, 0, 0) : k \in ExtendsP} \cup {DOf("calendar", k, 0, 0) : k \in {0} \cup ExtendsP}
+Ders == {DOf("extend", k, 0, 0) : k \in ExtendsP} \cup {DOf("calendar", k, 0, 0) : k \in CalendarsP}
         \cup {DOf(kd, 0, 0, 0) : kd \in {"lag", "head", "tail", "copy", "values", "arith"}}
-        \cup {DOf("poke", 0, i, j) : i \in 1..(NRows(x) + 1), j \in (IF NCols(x) = 1 THEN {0} ELSE 0..NCols(x))}
+        \cup {DOf("poke", 0, i, j) : i \in 1..(NRows(x) + MaxDerP - 1), j \in (IF NCols(x) = 1 THEN {0} ELSE PokeColsP)}
 SameRows(F) == \A f, g \in F : f.rows = g.rows
 
 Init == /\ x \in FramesP /\ y = NoY /\ cur = {} /\ root = "x" /\ own = FALSE /\ lastms = <<>> /\ lastlim = 0
@@ -81,7 +83,7 @@ MechCall(src, yy, ms, l) ==
     LET G  == IF src = "cur" THEN mech ELSE Contents(src, yy)
         tg == IF src = "cur" THEN tag ELSE <<>>
         hit == Memo /\ l = 0 /\ ms # <<>> /\ tg = ms
-    IN  /\ mech' = IF hit THEN G ELSE UNION {Fillna(g, ms, l) : g \in G}
+    IN  /\ mech' = IF hit THEN G ELSE IF G = Contents(src, yy) THEN cur' ELSE UNION {Fillna(g, ms, l) : g \in G}
         /\ tag'  = IF l = 0 /\ ms # <<>> THEN ms ELSE tg
 
 Call(src, yy, ms, l) ==
